@@ -148,6 +148,18 @@ add('C07', 'fault_enumeration',
     'DESIGN.md 3 C07', 'No reference semantics needed. A dying worker (OpenSSL via ctypes) is attributed through the published current case.',
     'exhaustive fault enumeration (all short inputs, all single truncations/substitutions) with a containment oracle')
 
+add('C05', 'fault_enumeration',
+    'For 11 templates (P2PK, P2PKH compressed/uncompressed, bare 1-of-1..3-of-3 multisig signed by the last m keys, P2SH(P2PK), '
+    'P2SH(2-of-3)) x 16 hash types (6 defined, 10 undefined incl. 0x22/0x43/0xc2/0xe3) x 5 transaction shapes x every signing '
+    'position, with the nonce cycled over 6 harness-owned classes: sign with the library (SignatureHash/RawSignatureHash + '
+    'CKey.sign), verify under flags {} and {P2SH}; then every single edit of a catalogue (each field of each input and output, '
+    'version, lock time, witness; insert/remove/duplicate/swap of inputs and outputs at every position) and every signature '
+    'substitution (foreign key, flipped hash-type byte, permuted order, duplicated signature, substituted redeem script). Oracle: '
+    'verifies iff the reference signature hash of the edited transaction equals the signed digest; a hand-written commitment '
+    'table must agree with that oracle (self-test and at run time).',
+    'DESIGN.md 3 C05', 'Oracle ref/sighash.py + ref/secp256k1.py; nonce owned (props/eckeys.py); digest collisions ignored.',
+    'exhaustive single-edit fault enumeration over sign-edit-verify histories against a reference model')
+
 NOT_YET = 'check not yet built in this revision of /verif (planned, see DESIGN.md section 3)'
 
 
